@@ -1,5 +1,6 @@
 import Tv.Thm.C10
 import Tv.Thm.C10Gen
+import Tv.Thm.C10GenB
 #print axioms Tv.C10.reads_in_bounds
 #print axioms Tv.C10.writes_once
 #print axioms Tv.C10.kernel_range_in_bounds
@@ -11,3 +12,10 @@ import Tv.Thm.C10Gen
 #print axioms Tv.C10Gen.rolling_apply_idx_to_safe
 #print axioms Tv.C10Gen.rolling2_apply_idx_to_safe
 #print axioms Tv.C10Gen.rolling_custom_to_safe
+#print axioms Tv.C10GenB.good_snoc
+#print axioms Tv.C10GenB.forBreak_inv
+#print axioms Tv.C10GenB.loop_inv
+#print axioms Tv.C10GenB.write_loop
+#print axioms Tv.C10GenB.perm_range_facts
+#print axioms Tv.C10GenB.trace_in_bounds
+#print axioms Tv.C10GenB.trace_present
